@@ -16,6 +16,22 @@ const (
 
 var retryable = map[string]bool{"bad200": true, "neterr": true, "redir": true, "s408": true, "s429": true, "s503": true}
 
+// a redirect the client's redirect policy refused: it may be retried like a transport error or end the submission
+// with the 3xx as status - the property only says that it is not a success
+const refused = "refused"
+
+// spellingOf names the body spelling (and the redirect chain in front of it) in fingerprints
+func spellingOf(p PostRec) string {
+	s := p.Spec.Sp
+	if p.Spec.Cls == "pres" {
+		s += ":via-" + p.Spec.Cls
+	}
+	if s == "" {
+		return ""
+	}
+	return ":" + s
+}
+
 // CheckRun states the clauses of C13 directly on the recorded timeline of one client, without the
 // specification: only instants, responses and results that were observed.
 func CheckRun(rep *vh.Report, run *Run, sc any) {
@@ -54,22 +70,39 @@ func CheckRun(rep *vh.Report, run *Run, sc any) {
 			viol("panic", "panic in the submission: "+c.Panic, c)
 			continue
 		}
-		if np := len(c.Posts); np > 0 && retryable[c.Posts[np-1].Cls] && c.CtxErrAtRet == "" {
+		if np := len(c.Posts); np > 0 && retryable[c.Posts[np-1].Cls] && c.CtxErrAtRet == "" && c.Res != "ok" {
+			// (a success after such a response is reported below as success-without-good-200)
 			// whatever error came back (its type does not matter): the last response was one that must be retried
 			// and the caller's context was alive, yet the submission gave up
 			p := c.Posts[np-1]
-			viol("gave-up-after:"+p.Cls+":"+p.Spec.Var, fmt.Sprintf("the submission returned (%s) after a response of class %s (variant %q) that must be retried, "+
-				"although its context had not ended (%d further scripted responses were never requested)", c.Res, p.Cls, p.Spec.Var, max(0, len(c.Spec.Script)-np)), c)
+			variant := p.Spec.Var
+			switch p.Spec.Cls {
+			case "bad200":
+				variant = p.Spec.Sp
+			case "pres":
+				variant = p.Spec.Sp + ":via-pres@hc=" + run.HC
+			case "redir":
+				variant = "@hc=" + run.HC
+			}
+			viol("gave-up-after:"+p.Cls+":"+variant, fmt.Sprintf("the submission returned (%s) after a response of class %s (variant %q) that must be retried, "+
+				"although its context had not ended (%d further scripted responses were never requested)", c.Res, p.Cls, variant, max(0, len(c.Spec.Script)-np)), c)
 		} else if strings.HasPrefix(c.Res, "other:") {
 			viol("result-kind:"+lastCls(c), "the submission returned an error that is neither the context's error nor an error carrying status and body: "+c.Res, c)
 		}
 		np := len(c.Posts)
 		for i, p := range c.Posts {
 			last := i == np-1
-			if !last && !retryable[p.Cls] {
-				viol("retried-after:"+p.Cls+statusOf(p), fmt.Sprintf("a request followed a response of class %s (status %d), which must end the submission", p.Cls, p.Code), c)
+			if !last && !retryable[p.Cls] && p.Cls != refused {
+				if p.Cls == "ok" {
+					// the first 200 response whose body parses was not returned: a legal spelling of the correct body was
+					// taken for an unparsable one
+					viol("good-200-not-returned"+spellingOf(p), fmt.Sprintf("a request followed a 200 response whose body is a legal JSON spelling (%s) of the complete, "+
+						"correct response: %q", p.Spec.Sp, p.Body), c)
+				} else {
+					viol("retried-after:"+p.Cls+statusOf(p), fmt.Sprintf("a request followed a response of class %s (status %d), which must end the submission", p.Cls, p.Code), c)
+				}
 			}
-			if last && !retryable[p.Cls] && c.TRet != p.T {
+			if last && !retryable[p.Cls] && (p.Cls != refused || c.Res == "status") && c.TRet != p.T {
 				viol("terminal-not-immediate:"+p.Cls, "the response that ends the submission was not returned at once", c)
 			}
 			if !last {
@@ -97,18 +130,34 @@ func CheckRun(rep *vh.Report, run *Run, sc any) {
 		switch c.Res {
 		case "ok":
 			if np == 0 || c.Posts[np-1].Cls != "ok" {
-				viol("success-without-good-200:"+lastCls(c), "success although the last response was not a 200 with a parsable body (class "+lastCls(c)+")", c)
-			}
-			if !c.SCTOK {
-				viol("success-wrong-content", "success, but not with the content of the good 200 response", c)
+				how := ""
+				if np > 0 {
+					p := c.Posts[np-1]
+					switch p.Spec.Cls {
+					case "redir", "loop":
+						how = "@hc=" + run.HC // a redirect, through this configuration of the caller's http.Client
+						if p.Spec.Cls != p.Cls {
+							how = ":" + p.Spec.Cls + how
+						}
+					case "pres":
+						how = ":" + p.Spec.Sp + ":via-pres@hc=" + run.HC
+					case "bad200":
+						how = ":" + p.Spec.Sp
+					}
+				}
+				viol("success-without-good-200:"+lastCls(c)+how, "success although the last response was not a 200 with a parsable body (class "+lastCls(c)+how+")", c)
+			} else if !c.SCTOK {
+				viol("success-wrong-content"+spellingOf(c.Posts[np-1]), "success, but not with the content of the good 200 response", c)
 			}
 		case "status":
 			if np == 0 {
 				viol("status-error-without-request", "status error without any request", c)
 			} else if p := c.Posts[np-1]; p.Cls == "other" && (c.Status != p.Code || c.ErrBody != p.Body) {
 				viol("status-error-content", fmt.Sprintf("error carries status %d body %q, the response had status %d body %q", c.Status, c.ErrBody, p.Code, p.Body), c)
-			} else if p.Cls != "other" {
-				viol("status-error-after:"+p.Cls, "the submission ended with a status error after a response of class "+p.Cls, c)
+			} else if p.Cls != "other" && p.Cls != refused {
+				viol("status-error-after:"+p.Cls+spellingOf(p), "the submission ended with a status error after a response of class "+p.Cls, c)
+			} else if p.Cls == refused && (c.Status < 300 || c.Status > 399) {
+				viol("status-error-content", fmt.Sprintf("error carries status %d, the refused redirect had status %d", c.Status, p.Code), c)
 			}
 		}
 		// the context: nothing after its end, and a prompt return with its error
